@@ -1,0 +1,82 @@
+//go:build verif
+
+// Contracts for the I/O error recovery readers (property C16) and the offset
+// chunk reader. Comment-only file.
+//
+// crPos(x): absolute offset (in the object) of the next byte a stream x —
+// chunk reader or reader — will deliver. A buffer opened at offset off yields
+// a stream with crPos == off; every successful read advances it by what was
+// delivered. The recovery readers keep  crPos(current stream) == r.off, so a
+// replacement is opened exactly where the consumer stands: no byte twice, none
+// skipped.
+// crClosed(x): number of times stream x has been closed.
+// ehErrors(h), ehDone(h): number of errors offered to / Done() calls made on
+// error handler h; ehLast(h): the error the handler returned last.
+package buffer
+
+//@ ghost crPos(ref) int
+//@ ghost crClosed(ref) int
+//@ ghost ehErrors(ref) int
+//@ ghost ehDone(ref) int
+//@ ghost ehLast(ref) int
+
+//@ iface ErrorHandler.OnError
+//@   modifies ehErrors(self), ehLast(self)
+//@   ensures ehErrors(self) == old(ehErrors(self)) + 1 && ehLast(self) == result1
+//@   ensures result1 == nil ==> result0 != nil
+//@   ensures result1 != nil ==> result0 == nil
+//@ iface ErrorHandler.Done
+//@   modifies ehDone(self)
+//@   ensures ehDone(self) == old(ehDone(self)) + 1
+
+//@ iface Buffer.toUnvalidatedChunkReader
+//@   modifies nothing
+//@   ensures result != nil && fresh(result) && crPos(result) == off && crClosed(result) == 0
+//@ iface Buffer.toUnvalidatedReader
+//@   modifies nothing
+//@   ensures result != nil && fresh(result) && crPos(result) == off && crClosed(result) == 0
+
+// ---- errorHandlingChunkReader
+//@ pure ehcWF(r) = r.r != nil && r.errorHandler != nil && crPos(r.r) == r.off && crClosed(r.r) == 0
+//@ typeinv errorHandlingChunkReader(r) = ehcWF(r)
+//@ func newErrorHandlingChunkReader
+//@   requires b != nil && errorHandler != nil
+//@   ensures result != nil && tinv(result)
+//@ func (*errorHandlingChunkReader).Read
+//@   requires ehcWF(r) && r.off >= 0
+//@   modifies r.r, r.off, crPos, srcCount, srcEOF, crClosed, ehErrors(r.errorHandler), ehLast(r.errorHandler)
+//@   ensures [resumes-where-the-consumer-stands] result1 == nil || result1 == io.EOF ==> ehcWF(r)
+//@   ensures [position-follows-delivery] result1 == nil ==> r.off == old(r.off) + len(result0)
+//@   ensures [nothing-delivered-otherwise] result1 != nil ==> r.off == old(r.off) && len(result0) == 0
+//@   ensures [handlers-error-is-reported] result1 != nil && result1 != io.EOF ==> result1 == ehLast(r.errorHandler)
+//@         && ehErrors(r.errorHandler) > old(ehErrors(r.errorHandler))
+//@   ensures [replaced-stream-closed] r.r != old(r.r) ==> crClosed(old(r.r)) == 1
+//@   ensures [not-finished-here] ehDone(r.errorHandler) == old(ehDone(r.errorHandler)) && unchanged(r.errorHandler)
+//@   loop 0 invariant r.r != nil && r.errorHandler != nil && unchanged(r.errorHandler) && unchanged(r.off) && unchanged(r.maximumChunkSizeBytes)
+//@         && crPos(r.r) == r.off && crClosed(r.r) == 0
+//@   loop 0 invariant ehDone(r.errorHandler) == old(ehDone(r.errorHandler)) && ehErrors(r.errorHandler) >= old(ehErrors(r.errorHandler))
+//@   loop 0 invariant r.r != old(r.r) ==> crClosed(old(r.r)) == 1 && fresh(r.r)
+//@ func (*errorHandlingChunkReader).Close
+//@   requires ehcWF(r)
+//@   ensures [handler-finished-once] ehDone(r.errorHandler) == old(ehDone(r.errorHandler)) + 1
+//@   ensures [stream-closed] crClosed(r.r) == 1
+
+// ---- errorHandlingReader
+//@ pure ehrWF(r) = r.r != nil && r.errorHandler != nil && crPos(r.r) == r.off && crClosed(r.r) == 0
+//@ typeinv errorHandlingReader(r) = ehrWF(r)
+//@ func newErrorHandlingReader
+//@   requires b != nil && errorHandler != nil
+//@   ensures result != nil && tinv(result)
+//@ func (*errorHandlingReader).Read
+//@   requires ehrWF(r) && r.off >= 0
+//@   ensures [resumes-where-the-consumer-stands] result1 == nil || result1 == io.EOF ==> ehrWF(r)
+//@   ensures [position-follows-delivery] r.off == old(r.off) + result0 && 0 <= result0 && result0 <= len(p)
+//@   ensures [handlers-error-is-reported] result1 != nil && result1 != io.EOF ==> result1 == ehLast(r.errorHandler)
+//@         && ehErrors(r.errorHandler) == old(ehErrors(r.errorHandler)) + 1
+//@   ensures [at-most-one-error-per-read] ehErrors(r.errorHandler) <= old(ehErrors(r.errorHandler)) + 1
+//@   ensures [replaced-stream-closed] r.r != old(r.r) ==> crClosed(old(r.r)) == 1
+//@   ensures [not-finished-here] ehDone(r.errorHandler) == old(ehDone(r.errorHandler)) && unchanged(r.errorHandler)
+//@ func (*errorHandlingReader).Close
+//@   requires ehrWF(r)
+//@   ensures [handler-finished-once] ehDone(r.errorHandler) == old(ehDone(r.errorHandler)) + 1
+//@   ensures [stream-closed] crClosed(r.r) == 1
